@@ -307,15 +307,12 @@ func genC20(c *Ctx) {
 	vals = append(vals, nil)
 	vals = append(vals, leaves...)
 	// depth 1: one- and two-member collections
-	for _, a := range leaves {
-		if isTypedNil(a) {
-			continue
-		}
+	for _, a := range leaves { // typed nil slices are members too (written nXX, read back as nil)
 		vals = append(vals, orb.Collection{a})
 	}
 	for i, a := range leaves {
 		for j, b := range leaves {
-			if isTypedNil(a) || isTypedNil(b) || (i+j)%3 != 0 && c.Tier != "thorough" {
+			if (i+j)%3 != 0 && c.Tier != "thorough" {
 				continue
 			}
 			vals = append(vals, orb.Collection{a, b})
@@ -323,9 +320,6 @@ func genC20(c *Ctx) {
 	}
 	// depth 2 (and 3 in the thorough tier)
 	for _, a := range leaves {
-		if isTypedNil(a) {
-			continue
-		}
 		vals = append(vals, orb.Collection{orb.Collection{a}}, orb.Collection{orb.Collection{}, orb.Collection{a, orb.Point{2, 2}}})
 		if c.Tier == "thorough" {
 			vals = append(vals, orb.Collection{orb.Collection{orb.Collection{a}}, a})
@@ -338,14 +332,14 @@ func genC20(c *Ctx) {
 			if !c.Mine(idx) {
 				continue
 			}
-			c.Case("call", e.name+" "+gs(orb.Clone(v)))
+			c.Case("call", e.name+" "+gsN(orb.Clone(v)))
 		}
 	}
 	// ordinary random values
 	for k := 0; k < c.Budget && !c.Exhausted(); k++ {
 		e := c20Entries[c.Rng.Intn(len(c20Entries))]
-		g := genGeom(c.Rng, GenOpts{Mode: []CoordMode{CoordSmallInt, CoordHalf, CoordModest}[c.Rng.Intn(3)], MaxPts: 6, MaxDepth: 3, TopNil: true}, 0)
-		c.Case("call", e.name+" "+gs(g))
+		g := genGeom(c.Rng, GenOpts{Mode: []CoordMode{CoordSmallInt, CoordHalf, CoordModest}[c.Rng.Intn(3)], MaxPts: 6, MaxDepth: 3, TopNil: true, InnerNil: true}, 0)
+		c.Case("call", e.name+" "+gsN(g))
 	}
 }
 
